@@ -482,6 +482,52 @@ def rule_schema(ctx):
     return r
 
 
+def rule_hitrebuild(ctx):
+    """The fingerprint deliberately ignores index order inside terms and output, so a
+    record can only be shared at the level of the *path*: on a cache hit ``search``
+    rebuilds the tree from the stored path with the query's own inputs and output -
+    every return that is not the freshly searched tree is such a rebuild."""
+    r = RuleResult("C14-HITREBUILD", "a cache hit rebuilds the tree for the queried contraction", 1)
+    ro = ctx.p.cls(C.REUSABLE, "ReusableOptimizer")
+    for c in [ro] + [c for c in ctx.p.classes.values() if c is not ro and c.is_subclass_of(ro)]:
+        f = c.methods.get("search")
+        if f is None:
+            continue
+        fl = ctx.flow(f)
+        for rt in fl.returns():
+            v = rt.ast.value
+            if v is None:
+                continue
+            key = ctx.key(f, "C14-HITREBUILD", C.unparse(v, 30))
+            txt = C.unparse(v)
+            if "last_opt" in txt:
+                r.ok(key, C.loc(f, rt.ast), "the tree this query just searched")
+                continue
+            exprs = [v]
+            if isinstance(v, ast.Name):
+                exprs = [d.value for d in fl.defs_reaching(v.id, rt.id) if d.value is not None] or [v]
+            ok = True
+            for e in exprs:
+                if "last_opt" in C.unparse(e):
+                    continue
+                calls = [x for x in ast.walk(e) if isinstance(x, ast.Call) and isinstance(x.func, ast.Attribute)
+                         and x.func.attr == "_reconstruct_tree"]
+                own = {p_ for p_ in f.params if p_ != "self"}
+                good = [x for x in calls if own & {a.id for a in x.args if isinstance(a, ast.Name)}
+                        >= {"inputs", "output"} & own]
+                if not (isinstance(e, ast.Call) and good and e is good[0]) and \
+                        not (isinstance(e, ast.Call) and dotted(e.func) and "super" in C.unparse(e.func)):
+                    ok = False
+            if ok:
+                r.ok(key, C.loc(f, rt.ast), "rebuilt from the stored path with the query's inputs and output")
+            else:
+                r.violation(key, C.loc(f, rt.ast), f"`return {txt}` hands back something other than a rebuild "
+                            "for the queried inputs/output: the fingerprint ignores index order within "
+                            "terms and output, so a tree kept from an equal-fingerprint query has the "
+                            "wrong axis order for this one")
+    return r
+
+
 def rule_memkey(ctx):
     """The store behind the reusable optimizers keeps entries in a memory dict in
     front of the directory.  Writer and readers (``__setitem__``, ``__getitem__``,
@@ -549,4 +595,4 @@ def rule_ownresult(ctx):
                         lambda i: "Reusable" in i.construct, 2)
 
 
-RULES = [rule_fpdet, rule_fpcov, rule_fppos, rule_policy, rule_schema, rule_memkey, rule_ownresult]
+RULES = [rule_fpdet, rule_fpcov, rule_fppos, rule_policy, rule_schema, rule_memkey, rule_ownresult, rule_hitrebuild]
